@@ -568,6 +568,12 @@ def run_model_paths(case):
   ex, batches = build_batches(case)
   user_batches = [with_mask(case, feats, mask) for feats, mask, _ in batches]
 
+  def batch_bytes():
+    return [sorted((k, str(np.asarray(v).dtype), np.asarray(v).shape, np.asarray(v).tobytes())
+                   for k, v in b.items()) for b in user_batches]
+
+  batches_before = batch_bytes()
+
   # fedjax under test first (so that an exception is attributed to it)
   results = {}
   if case.get('sibling_first') and len(menu) >= 2:
@@ -610,6 +616,11 @@ def run_model_paths(case):
             f'{[cid for cid, _ in out]}')
     results['evaluator[fwd]'] = out[0][1]
     results['evaluator[rev]'] = out[1][1]
+
+  # the caller's batches (dicts and arrays) are what they were: evaluating them
+  # again, now or later, sees the same keys (mask included) and the same bytes
+  require(batch_bytes() == batches_before, 'evaluate:caller_batches_modified',
+          'a batch dict or one of its arrays was changed by the evaluation')
 
   # reference: one-by-one fold of single-example statistics from zero()
   f = per_example_fn(fam, c, t, menu)
